@@ -208,6 +208,10 @@ class SimLoop(object):
     self.stall_prob = cfg.get('stall_prob', 0.0)
     self.stall_max = cfg.get('stall_max', 0.0)
     self.max_steps = cfg.get('max_steps', 400000)
+    # events due within this many seconds of the instant being processed count
+    # as simultaneous with it (a timer armed for `at - now` seconds lands one
+    # float step away from an event scheduled at `at`)
+    self.tie_eps = cfg.get('tie_eps', 2e-9)
     self.trace_on = cfg.get('trace', False)
     self._callbacks = deque()
     self._events = []
@@ -388,14 +392,20 @@ class SimLoop(object):
       finally:
         cb.args = None
       count += 1
-      if self.batch_break and count % self.CALLBACK_CHECK_COUNT == 0 and cbs:
-        if self.rng.random() < 0.5:
+      if self.batch_break is True:
+        # gevent re-checks its time slice every CALLBACK_CHECK_COUNT callbacks
+        if count % self.CALLBACK_CHECK_COUNT == 0 and cbs and self.rng.random() < 0.5:
           self.counters['batch_breaks'] += 1
           return
+      elif self.batch_break and cbs and self.rng.random() < self.batch_break:
+        # a slow callback used up the time slice: pending timers / I/O are
+        # served before the rest of the callback queue (probability per callback)
+        self.counters['batch_breaks'] += 1
+        return
 
   def _due(self):
     evs = self._events
-    now = CLOCK.now
+    now = CLOCK.now + self.tie_eps
     due = []
     while evs and evs[0].due <= now:
       ev = heapq.heappop(evs)
